@@ -26,53 +26,49 @@ Import ListNotations.
    S p = T (G v)   (G target map, T world-to-world mapping, S source map). *)
 Theorem resample_samples_mapped_point :
   forall (R : Type) (r0 r1 : R) (radd rmul rsub : R -> R -> R) (ropp : R -> R)
-         (Rth : ring_theory r0 r1 radd rmul rsub ropp (@eq R)) (reqb : R -> R -> bool) (rtrunc : R -> R)
+         (Rth : ring_theory r0 r1 radd rmul rsub ropp (@eq R)) (reqb : R -> R -> bool)
          (icm target : aff R) (m : mapping R) (Sinv : list (list R))
          (out : aff R) (A : list (list R)) (b : list R) (nt nw ns : nat) (v : list R),
-    resample_affine R r0 r1 radd rmul reqb rtrunc icm target m Sinv = Ok (out, (A, b)) ->
+    resample_affine R r0 r1 radd rmul reqb icm target m Sinv = Ok (out, (A, b)) ->
     cs_ndim (adom target) = nt ->
     wf_aff r0 r1 nw nt (amat target) ->
-    wf_aff r0 r1 ns nw (mapping_matrix R r0 r1 rtrunc m) ->
+    wf_aff r0 r1 ns nw (mapping_matrix R r0 r1 m) ->
     wf_aff r0 r1 ns ns Sinv ->
     inv_pair R r0 r1 radd rmul ns (amat icm) Sinv ->
     length v = nt ->
     out = target /\
     preimage_of R r0 r1 radd rmul ns (amat icm)
-      (happly r0 r1 radd rmul (mapping_matrix R r0 r1 rtrunc m) (happly r0 r1 radd rmul (amat target) v))
+      (happly r0 r1 radd rmul (mapping_matrix R r0 r1 m) (happly r0 r1 radd rmul (amat target) v))
       (sample_point R r0 radd rmul A b v).
 Proof. exact resample_samples. Qed.
 Print Assumptions resample_samples_mapped_point.
 
-(* the (A, b) tuple form of `mapping` denotes x |-> A x + b when A is not
-   integer-typed (mdt <> 0) or b is integral (rtrunc fixes it) *)
+(* every (A, b) tuple form of `mapping`, whatever the dtypes of A and b, denotes
+   x |-> A x + b  (since 11fc3b1 an integer-typed A is cast to result_type(A, b)
+   before nibabel's from_matvec, so a fractional b is kept) *)
 Theorem resample_tuple_mapping_is_Ax_plus_b :
   forall (R : Type) (r0 r1 : R) (radd rmul rsub : R -> R -> R) (ropp : R -> R)
-         (Rth : ring_theory r0 r1 radd rmul rsub ropp (@eq R)) (rtrunc : R -> R)
-         (n : nat) (A : list (list R)) (b x : list R) (mdt : nat),
-    mdt <> 0 \/ map rtrunc b = b ->
+         (Rth : ring_theory r0 r1 radd rmul rsub ropp (@eq R))
+         (n : nat) (A : list (list R)) (b x : list R) (adt bdt : nat),
     length A = n -> length b = n -> rows_len n A -> 0 < n -> length x = n ->
-    happly r0 r1 radd rmul (mapping_matrix R r0 r1 rtrunc (MapTuple A b mdt)) x
+    happly r0 r1 radd rmul (mapping_matrix R r0 r1 (MapTuple A b adt bdt)) x
     = vadd radd (mv r0 radd rmul A x) b.
 Proof. exact tuple_mapping_action. Qed.
 Print Assumptions resample_tuple_mapping_is_Ax_plus_b.
 
-(* FINDING.  With an integer-typed A, nibabel's from_matvec truncates a
-   fractional b, so `resample(img, target, (A, b), ...)` does not apply
-   y = A x + b.  Witness over Q: A = I (int), b = (1/2, 0), x = (0, 0). *)
-Theorem resample_tuple_int_matrix_refuted :
-  exists (A : list (list Qc)) (b x : list Qc),
-    qv_eqb (happly q0 q1 Qcplus Qcmult (mapping_matrix Qc q0 q1 qc_trunc (MapTuple A b 0)) x)
-           (vadd Qcplus (mv q0 Qcplus Qcmult A x) b) = false.
-Proof. exists [[q1; q0]; [q0; q1]], [qc 1 2; q0], [q0; q0]. vm_compute. reflexivity. Qed.
-Print Assumptions resample_tuple_int_matrix_refuted.
+(* non-vacuity of the former failure case: integer-typed A = I, b = (1/2, 0) *)
+Example resample_tuple_int_matrix_keeps_fraction :
+  qv_eqb (happly q0 q1 Qcplus Qcmult (mapping_matrix Qc q0 q1 (MapTuple [[q1; q0]; [q0; q1]] [qc 1 2; q0] 0 1)) [q0; q0])
+         [qc 1 2; q0] = true.
+Proof. vm_compute. reflexivity. Qed.
 
 (* resample_img2img: identity world map; the sampled point is S^-1 (G v) *)
 Theorem resample_img2img_samples_mapped_point :
   forall (R : Type) (r0 r1 : R) (radd rmul rsub : R -> R -> R) (ropp : R -> R)
-         (Rth : ring_theory r0 r1 radd rmul rsub ropp (@eq R)) (reqb : R -> R -> bool) (rtrunc : R -> R)
+         (Rth : ring_theory r0 r1 radd rmul rsub ropp (@eq R)) (reqb : R -> R -> bool)
          (scm tcm : aff R) (Sinv : list (list R)) (out : aff R) (A : list (list R))
          (b : list R) (nt nw : nat) (v : list R),
-    resample_img2img R r0 r1 radd rmul reqb rtrunc scm tcm Sinv = Ok (out, (A, b)) ->
+    resample_img2img R r0 r1 radd rmul reqb scm tcm Sinv = Ok (out, (A, b)) ->
     cs_ndim (adom tcm) = nt -> cs_ndim (arng scm) = nw ->
     wf_aff r0 r1 nw nt (amat tcm) -> wf_aff r0 r1 nw nw Sinv ->
     inv_pair R r0 r1 radd rmul nw (amat scm) Sinv ->
@@ -153,86 +149,52 @@ Theorem realign4d_identity_samples_itself :
 Proof. exact scanner_identity. Qed.
 Print Assumptions realign4d_identity_samples_itself.
 
-(* VolumeImg.as_volume_img, branch taken when the 3x3 part A of
-   inv(self.affine).affine is NOT diagonal: offset = Ainv (A b) = b and the
-   sampled point is the preimage of G v. *)
-Theorem as_volume_img_nondiag_samples_mapped_point :
+(* VolumeImg.as_volume_img (4x4 affine): in BOTH branches - A diagonal, handed
+   to affine_transform as a 1-D matrix, or full A - the offset is b (af693d9) and
+   the sampled point is the preimage of G v under the image's own affine. *)
+Theorem as_volume_img_samples_mapped_point :
   forall (R : Type) (r0 r1 : R) (radd rmul rsub : R -> R -> R) (ropp : R -> R)
          (Rth : ring_theory r0 r1 radd rmul rsub ropp (@eq R)) (reqb : R -> R -> bool),
     (forall x y : R, reqb x y = true -> x = y) ->
-    forall (S0 G Sinv Ainv : list (list R)) (v : list R),
+    forall (S0 G Sinv : list (list R)) (v : list R),
     wf_aff r0 r1 3 3 S0 -> wf_aff r0 r1 3 3 G -> wf_aff r0 r1 3 3 Sinv ->
     inv_pair R r0 r1 radd rmul 3 S0 Sinv -> length v = 3 ->
-    let Tm := avi_transform R r0 r1 radd rmul reqb S0 G Sinv in
-    is_diag R r0 reqb (lin_part R Tm) = false ->
-    (forall y, length y = 3 -> mv r0 radd rmul Ainv (mv r0 radd rmul (lin_part R Tm) y) = y) ->
     preimage_of R r0 r1 radd rmul 3 S0 (happly r0 r1 radd rmul G v)
-      (avi_sample_point R r0 radd rmul (avi_sampler_args R r0 r1 radd rmul reqb S0 G Sinv Ainv) v).
-Proof. exact avi_nondiag_samples. Qed.
-Print Assumptions as_volume_img_nondiag_samples_mapped_point.
+      (avi_sample_point R r0 radd rmul (avi_sampler_args R r0 r1 radd rmul reqb S0 G Sinv) v).
+Proof. exact avi_samples. Qed.
+Print Assumptions as_volume_img_samples_mapped_point.
 
-(* FINDING.  VolumeImg.as_volume_img, branch taken when A IS diagonal (flips,
-   zooms, sub-sampling): the offset handed to affine_transform is Ainv b
-   instead of b (written for the pre-0.18 scipy convention of 1-D `matrix`),
-   so the property fails as soon as A <> I and b <> 0.
-   Witness over Z: self.affine = I, target affine = diag(-1,1,1) + (3,0,0)
-   (a flip of the x axis of a 4-voxel-wide image onto itself), voxel (0,0,0):
-   sampled source voxel (-3,0,0), mapped point (3,0,0). *)
-Theorem as_volume_img_diag_refuted :
-  exists (S0 G Sinv Ainv : list (list Z)) (v : list Z),
-    mm 0%Z Z.add Z.mul 4 S0 Sinv = mid 0%Z 1%Z 4 /\ mm 0%Z Z.add Z.mul 4 Sinv S0 = mid 0%Z 1%Z 4 /\
-    mm 0%Z Z.add Z.mul 3 Ainv (lin_part Z (avi_transform Z 0%Z 1%Z Z.add Z.mul Z.eqb S0 G Sinv)) = mid 0%Z 1%Z 3 /\
-    length v = 3 /\
-    happly 0%Z 1%Z Z.add Z.mul S0
-      (avi_sample_point Z 0%Z Z.add Z.mul (avi_sampler_args Z 0%Z 1%Z Z.add Z.mul Z.eqb S0 G Sinv Ainv) v)
-    <> happly 0%Z 1%Z Z.add Z.mul G v.
-Proof.
-  exists (mid 0%Z 1%Z 4), [[-1;0;0;3];[0;1;0;0];[0;0;1;0];[0;0;0;1]]%Z, (mid 0%Z 1%Z 4),
-         [[-1;0;0];[0;1;0];[0;0;1]]%Z, [0;0;0]%Z.
-  repeat split; try (vm_compute; reflexivity). vm_compute. discriminate.
-Qed.
-Print Assumptions as_volume_img_diag_refuted.
+(* non-vacuity, the former failure case: self.affine = I, target = flip of x with
+   offset 3 (diagonal branch): voxel (0,0,0) samples source voxel (3,0,0) *)
+Example as_volume_img_diag_flip_example :
+  avi_sampler_args Z 0%Z 1%Z Z.add Z.mul Z.eqb (mid 0%Z 1%Z 4)
+                   [[-1;0;0;3];[0;1;0;0];[0;0;1;0];[0;0;0;1]]%Z (mid 0%Z 1%Z 4)
+  = (SDiag [-1;1;1]%Z, [3;0;0]%Z)
+  /\ avi_sample_point Z 0%Z Z.add Z.mul (SDiag [-1;1;1]%Z, [3;0;0]%Z) [0;0;0]%Z = [3;0;0]%Z.
+Proof. vm_compute. split; reflexivity. Qed.
 
-(* VolumeImg.xyz_ordered, flip step.  Axis 0 (and every unflipped axis): the
-   datum shown at new index i keeps its world coordinate. *)
-Theorem xyz_ordered_axis0_preserves_world :
+(* VolumeImg.xyz_ordered, flip step (1ef8ed7): for EVERY axis, flipped or not,
+   the datum shown at new index i keeps its world coordinate; the new pixdim is
+   -p exactly when the axis was reversed. *)
+Theorem xyz_ordered_flip_preserves_world :
   forall (R : Type) (r0 r1 : R) (radd rmul rsub : R -> R -> R) (ropp : R -> R)
          (Rth : ring_theory r0 r1 radd rmul rsub ropp (@eq R)) (rneg : R -> bool) (p b nm1 i : R),
-    let '(p', b', f) := xyz_flip_axis R r1 radd rmul ropp rneg 0 p b nm1 in
+    let '(p', b', f) := xyz_flip_axis R radd rmul ropp rneg p b nm1 in
     axis_world R radd rmul p' b' i = axis_world R radd rmul p b (xyz_old_index R rsub f nm1 i).
-Proof. exact xyz_flip_axis0_preserves. Qed.
-Print Assumptions xyz_ordered_axis0_preserves_world.
+Proof. exact xyz_flip_preserves. Qed.
+Print Assumptions xyz_ordered_flip_preserves_world.
 
-Theorem xyz_ordered_unflipped_preserves_world :
-  forall (R : Type) (r1 : R) (radd rmul rsub : R -> R -> R) (ropp : R -> R) (rneg : R -> bool)
-         (k : nat) (p b nm1 i : R),
-    rneg p = false ->
-    let '(p', b', f) := xyz_flip_axis R r1 radd rmul ropp rneg k p b nm1 in
-    axis_world R radd rmul p' b' i = axis_world R radd rmul p b (xyz_old_index R rsub f nm1 i).
-Proof. exact xyz_noflip_preserves. Qed.
-Print Assumptions xyz_ordered_unflipped_preserves_world.
+Theorem xyz_ordered_flip_pixdim :
+  forall (R : Type) (radd rmul : R -> R -> R) (ropp : R -> R) (rneg : R -> bool) (p b nm1 : R),
+    let '(p', b', f) := xyz_flip_axis R radd rmul ropp rneg p b nm1 in
+    f = rneg p /\ p' = (if f then ropp p else p).
+Proof. exact xyz_flip_pixdim. Qed.
+Print Assumptions xyz_ordered_flip_pixdim.
 
-(* FINDING.  Axes 1 and 2: `b[k] = b[k] + 1 + pixdim[k]*(shape[k]-1)` moves every
-   datum of a flipped y or z axis by exactly +1 in world space. *)
-Theorem xyz_ordered_flip_yz_shifts_world_by_one :
-  forall (R : Type) (r0 r1 : R) (radd rmul rsub : R -> R -> R) (ropp : R -> R)
-         (Rth : ring_theory r0 r1 radd rmul rsub ropp (@eq R)) (rneg : R -> bool)
-         (k : nat) (p b nm1 i : R),
-    k <> 0 -> rneg p = true ->
-    let '(p', b', f) := xyz_flip_axis R r1 radd rmul ropp rneg k p b nm1 in
-    axis_world R radd rmul p' b' i
-    = radd (axis_world R radd rmul p b (xyz_old_index R rsub f nm1 i)) r1.
-Proof. exact xyz_flip_axis12_shifted. Qed.
-Print Assumptions xyz_ordered_flip_yz_shifts_world_by_one.
-
-(* witness: y axis, pixdim -1, offset 4, 5 voxels: the datum of old voxel 4
-   (world y = 0) is reported at world y = 1 *)
-Theorem xyz_ordered_refuted :
-  exists (k : nat) (p b nm1 i : Z),
-    let '(p', b', f) := xyz_flip_axis Z 1%Z Z.add Z.mul Z.opp (fun x => Z.ltb x 0) k p b nm1 in
-    axis_world Z Z.add Z.mul p' b' i <> axis_world Z Z.add Z.mul p b (xyz_old_index Z Z.sub f nm1 i).
-Proof. exists 1, (-1)%Z, 4%Z, 4%Z, 0%Z. vm_compute. discriminate. Qed.
-Print Assumptions xyz_ordered_refuted.
+(* non-vacuity, the former failure case: y axis, pixdim -1, offset 4, 5 voxels *)
+Example xyz_ordered_flip_example :
+  xyz_flip_axis Z Z.add Z.mul Z.opp (fun x => Z.ltb x 0) (-1)%Z 4%Z 4%Z = (1%Z, 0%Z, true).
+Proof. vm_compute. reflexivity. Qed.
 
 (* ================================================================== (2) consequences under the interpolation-oracle contract
    interp o m c p : value the external sampler returns at source-voxel
@@ -247,27 +209,27 @@ Print Assumptions xyz_ordered_refuted.
 
 Theorem grid_to_grid_exact :
   forall (R : Type) (r0 r1 : R) (radd rmul rsub : R -> R -> R) (ropp : R -> R)
-         (Rth : ring_theory r0 r1 radd rmul rsub ropp (@eq R)) (reqb : R -> R -> bool) (rtrunc : R -> R)
+         (Rth : ring_theory r0 r1 radd rmul rsub ropp (@eq R)) (reqb : R -> R -> bool)
          (inj : Z -> R) (src : list Z -> R) (inb : list Z -> Prop)
          (interp : nat -> bmode -> R -> list R -> R),
     (forall o m c z, inb z -> interp o m c (map inj z) = src z) ->
     forall (icm target : aff R) (m : mapping R) (Sinv : list (list R))
            (out : aff R) (A : list (list R)) (b : list R) (nt nw ns : nat) (v : list R)
            (o : nat) (bm : bmode) (c : R) (z : list Z),
-    resample_affine R r0 r1 radd rmul reqb rtrunc icm target m Sinv = Ok (out, (A, b)) ->
+    resample_affine R r0 r1 radd rmul reqb icm target m Sinv = Ok (out, (A, b)) ->
     cs_ndim (adom target) = nt ->
-    wf_aff r0 r1 nw nt (amat target) -> wf_aff r0 r1 ns nw (mapping_matrix R r0 r1 rtrunc m) ->
+    wf_aff r0 r1 nw nt (amat target) -> wf_aff r0 r1 ns nw (mapping_matrix R r0 r1 m) ->
     wf_aff r0 r1 ns ns Sinv -> inv_pair R r0 r1 radd rmul ns (amat icm) Sinv ->
     length v = nt ->
     (* the mapped world point of v is the world position of in-bounds source voxel z *)
     inb z -> length z = ns ->
     happly r0 r1 radd rmul (amat icm) (map inj z)
-    = happly r0 r1 radd rmul (mapping_matrix R r0 r1 rtrunc m) (happly r0 r1 radd rmul (amat target) v) ->
+    = happly r0 r1 radd rmul (mapping_matrix R r0 r1 m) (happly r0 r1 radd rmul (amat target) v) ->
     interp o bm c (sample_point R r0 radd rmul A b v) = src z.
 Proof.
-  intros R r0 r1 radd rmul rsub ropp Rth reqb rtrunc inj src inb interp HL icm target m Sinv out A b nt nw ns v
+  intros R r0 r1 radd rmul rsub ropp Rth reqb inj src inb interp HL icm target m Sinv out A b nt nw ns v
          o bm c z E Hnt HG HT HSi Hinv Hv Hz Lz Ew.
-  destruct (resample_samples R r0 r1 radd rmul rsub ropp Rth reqb rtrunc icm target m Sinv out A b nt nw ns v
+  destruct (resample_samples R r0 r1 radd rmul rsub ropp Rth reqb icm target m Sinv out A b nt nw ns v
               E Hnt HG HT HSi Hinv Hv) as [_ P].
   exact (sampled_grid_exact R r0 r1 radd rmul inj ns src inb interp HL _ _ _ o bm c z P Hz Lz Ew).
 Qed.
@@ -275,27 +237,27 @@ Print Assumptions grid_to_grid_exact.
 
 Theorem outside_gets_cval :
   forall (R : Type) (r0 r1 : R) (radd rmul rsub : R -> R -> R) (ropp : R -> R)
-         (Rth : ring_theory r0 r1 radd rmul rsub ropp (@eq R)) (reqb : R -> R -> bool) (rtrunc : R -> R)
+         (Rth : ring_theory r0 r1 radd rmul rsub ropp (@eq R)) (reqb : R -> R -> bool)
          (outside : list R -> Prop) (interp : nat -> bmode -> R -> list R -> R),
     (forall o c p, outside p -> interp o MConstant c p = c) ->
     forall (icm target : aff R) (m : mapping R) (Sinv : list (list R))
            (out : aff R) (A : list (list R)) (b : list R) (nt nw ns : nat) (v : list R)
            (o : nat) (c : R),
-    resample_affine R r0 r1 radd rmul reqb rtrunc icm target m Sinv = Ok (out, (A, b)) ->
+    resample_affine R r0 r1 radd rmul reqb icm target m Sinv = Ok (out, (A, b)) ->
     cs_ndim (adom target) = nt ->
-    wf_aff r0 r1 nw nt (amat target) -> wf_aff r0 r1 ns nw (mapping_matrix R r0 r1 rtrunc m) ->
+    wf_aff r0 r1 nw nt (amat target) -> wf_aff r0 r1 ns nw (mapping_matrix R r0 r1 m) ->
     wf_aff r0 r1 ns ns Sinv -> inv_pair R r0 r1 radd rmul ns (amat icm) Sinv ->
     length v = nt ->
     (* every source position whose world position is the mapped point lies outside the field of view *)
     (forall q, length q = ns ->
        happly r0 r1 radd rmul (amat icm) q
-       = happly r0 r1 radd rmul (mapping_matrix R r0 r1 rtrunc m) (happly r0 r1 radd rmul (amat target) v) ->
+       = happly r0 r1 radd rmul (mapping_matrix R r0 r1 m) (happly r0 r1 radd rmul (amat target) v) ->
        outside q) ->
     interp o MConstant c (sample_point R r0 radd rmul A b v) = c.
 Proof.
-  intros R r0 r1 radd rmul rsub ropp Rth reqb rtrunc outside interp HC icm target m Sinv out A b nt nw ns v
+  intros R r0 r1 radd rmul rsub ropp Rth reqb outside interp HC icm target m Sinv out A b nt nw ns v
          o c E Hnt HG HT HSi Hinv Hv Ho.
-  destruct (resample_samples R r0 r1 radd rmul rsub ropp Rth reqb rtrunc icm target m Sinv out A b nt nw ns v
+  destruct (resample_samples R r0 r1 radd rmul rsub ropp Rth reqb icm target m Sinv out A b nt nw ns v
               E Hnt HG HT HSi Hinv Hv) as [_ P].
   exact (sampled_outside_cval R r0 r1 radd rmul ns outside interp HC _ _ _ o c P Ho).
 Qed.
@@ -303,7 +265,7 @@ Print Assumptions outside_gets_cval.
 
 Theorem linear_reproduces_affine_field :
   forall (R : Type) (r0 r1 : R) (radd rmul rsub : R -> R -> R) (ropp : R -> R)
-         (Rth : ring_theory r0 r1 radd rmul rsub ropp (@eq R)) (reqb : R -> R -> bool) (rtrunc : R -> R)
+         (Rth : ring_theory r0 r1 radd rmul rsub ropp (@eq R)) (reqb : R -> R -> bool)
          (inj : Z -> R) (ns : nat) (src : list Z -> R) (inb : list Z -> Prop)
          (inside : list R -> Prop) (interp : nat -> bmode -> R -> list R -> R),
     (forall bm c (Gm : list (list R)), wf_aff r0 r1 1 ns Gm ->
@@ -312,9 +274,9 @@ Theorem linear_reproduces_affine_field :
     forall (icm target : aff R) (m : mapping R) (Sinv F : list (list R))
            (out : aff R) (A : list (list R)) (b : list R) (nt nw : nat) (v : list R)
            (bm : bmode) (c : R),
-    resample_affine R r0 r1 radd rmul reqb rtrunc icm target m Sinv = Ok (out, (A, b)) ->
+    resample_affine R r0 r1 radd rmul reqb icm target m Sinv = Ok (out, (A, b)) ->
     cs_ndim (adom target) = nt ->
-    wf_aff r0 r1 nw nt (amat target) -> wf_aff r0 r1 ns nw (mapping_matrix R r0 r1 rtrunc m) ->
+    wf_aff r0 r1 nw nt (amat target) -> wf_aff r0 r1 ns nw (mapping_matrix R r0 r1 m) ->
     wf_aff r0 r1 ns ns Sinv -> wf_aff r0 r1 ns ns (amat icm) ->
     inv_pair R r0 r1 radd rmul ns (amat icm) Sinv ->
     length v = nt ->
@@ -325,11 +287,11 @@ Theorem linear_reproduces_affine_field :
     inside (sample_point R r0 radd rmul A b v) ->
     [interp 1 bm c (sample_point R r0 radd rmul A b v)]
     = happly r0 r1 radd rmul F
-        (happly r0 r1 radd rmul (mapping_matrix R r0 r1 rtrunc m) (happly r0 r1 radd rmul (amat target) v)).
+        (happly r0 r1 radd rmul (mapping_matrix R r0 r1 m) (happly r0 r1 radd rmul (amat target) v)).
 Proof.
-  intros R r0 r1 radd rmul rsub ropp Rth reqb rtrunc inj ns src inb inside interp HLin icm target m Sinv F out A b
+  intros R r0 r1 radd rmul rsub ropp Rth reqb inj ns src inb inside interp HLin icm target m Sinv F out A b
          nt nw v bm c E Hnt HG HT HSi HS Hinv Hv HF Hsrc Hin.
-  destruct (resample_samples R r0 r1 radd rmul rsub ropp Rth reqb rtrunc icm target m Sinv out A b nt nw ns v
+  destruct (resample_samples R r0 r1 radd rmul rsub ropp Rth reqb icm target m Sinv out A b nt nw ns v
               E Hnt HG HT HSi Hinv Hv) as [_ P].
   exact (sampled_linear_field R r0 r1 radd rmul rsub ropp Rth inj ns src inb inside interp HLin
            (amat icm) F _ _ ns bm c HS HF P Hsrc Hin).
@@ -376,12 +338,12 @@ Example resample_example :
   let cs := fun names nm => {| cnames := names; cname := nm; cdt := 1 |} in
   let icm := Build_aff (cs ["i";"j"] "vox") (cs ["x";"y"] "world") [[2;0;1];[0;-1;3];[0;0;1]]%Z in
   let tgt := Build_aff (cs ["j";"i"] "tvox") (cs ["x";"y"] "world") [[0;2;-1];[1;0;2];[0;0;1]]%Z in
-  resample_affine Z 0%Z 1%Z Z.add Z.mul Z.eqb (fun z => z) icm tgt (MapTuple [[1;0];[0;1]]%Z [2;-1]%Z 1)
+  resample_affine Z 0%Z 1%Z Z.add Z.mul Z.eqb icm tgt (MapTuple [[1;0];[0;1]]%Z [2;-1]%Z 1 1)
                   [[1;0;-1];[0;-2;6];[0;0;2]]%Z
   = Err EValue
   /\
   let icm1 := Build_aff (cs ["i";"j"] "vox") (cs ["x";"y"] "world") [[1;0;1];[0;-1;3];[0;0;1]]%Z in
-  resample_affine Z 0%Z 1%Z Z.add Z.mul Z.eqb (fun z => z) icm1 tgt (MapTuple [[1;0];[0;1]]%Z [2;-1]%Z 1)
+  resample_affine Z 0%Z 1%Z Z.add Z.mul Z.eqb icm1 tgt (MapTuple [[1;0];[0;1]]%Z [2;-1]%Z 1 1)
                   [[1;0;-1];[0;-1;3];[0;0;1]]%Z
   = Ok (tgt, ([[0;2];[-1;0]]%Z, [0;2]%Z)).
 Proof. vm_compute. split; reflexivity. Qed.
